@@ -1,4 +1,5 @@
 import GodiProofs.Conc.Clauses
+import GodiProofs.Conc.LockFactsOk
 /-!
 # C09 — Providers and scopes are safe for concurrent use
 
@@ -72,6 +73,29 @@ theorem C09_creation_mutex {thr : List Thr} (h0 : InitThreads thr) {s : Sys} (r 
 /-- the relation the theorems quantify over is the one the executable model (and therefore the
 driver that replays harness schedules) computes -/
 theorem C09_step_executable (s s' : Sys) : Step s s' ↔ ∃ t, step? s t = some s' := step_iff s s'
+
+/-- TIE T2: the synchronisation skeleton extracted from the current scope.go / provider.go equals the
+table M6's action programs were written from (`GodiProofs/Conc/LockFactsOk.lean`). -/
+theorem C09_source_skeleton : Godi.Gen.LockFacts.facts = Godi.Conc.LockExpected.facts :=
+  Godi.Conc.LockFactsOk.facts_eq
+
+/-- checked on the source: no mutex is acquired while another is held; none is held at a channel
+receive, at a call into another godi function or user code, or at a return (except the creation
+mutex handed out by `lockCreation`) — the reason M6 may treat each protected region as one action
+and leave table mutexes out of the deadlock argument -/
+theorem C09_table_locks_flat :
+    Godi.Conc.LockFactsOk.allEvents Godi.Conc.LockFactsOk.Ev.flatOk Godi.Gen.LockFacts.facts = true :=
+  Godi.Conc.LockFactsOk.table_locks_flat
+
+/-- checked on the source: every access to a field with a `<field>Mu` sibling holds that mutex -/
+theorem C09_guarded_fields_locked :
+    Godi.Conc.LockFactsOk.allEvents Godi.Conc.LockFactsOk.Ev.guardOk Godi.Gen.LockFacts.facts = true :=
+  Godi.Conc.LockFactsOk.guarded_fields_locked
+
+/-- the extractor understood every statement -/
+theorem C09_skeleton_complete :
+    Godi.Conc.LockFactsOk.allEvents (fun e => !Godi.Conc.LockFactsOk.Ev.isUnknown e) Godi.Gen.LockFacts.facts = true :=
+  Godi.Conc.LockFactsOk.no_unknown
 
 theorem run_reach {s s' : Sys} {sched : List Nat} (h : run s sched = some s') : Reach s s' := by
   induction sched generalizing s with
